@@ -155,4 +155,18 @@ TEXT = {
         "technique": "Lean 4 proof (read loop refines the script spec, via update_ideal + C01) + scripted-reader "
                      "differential replay",
     },
+    "C15": {
+        "level": "Proof: strict parser (text and bytes) = lenient parser then checksum check (48-bucket: byte <= 48) "
+                 "then length-code check (< 170): Ok(h) iff lenient Ok(h) and both valid; InvalidChecksum / "
+                 "LengthIsTooLarge when only that reason applies; lenient errors stay errors "
+                 "(strict_eq_lenient_then_checks_*); every hash the generator can produce (any input, chunking, "
+                 "options, configuration) is well formed, has length code < 170 = code of the bytes fed, and "
+                 "checksum byte <= 48 on the 48-bucket variant (generated_strict_valid, via the C01 refinement and "
+                 "fold48 <= 48 over all 256 Pearson outputs), hence survives the strict round trip "
+                 "(strict_roundtrip_generated). Correspondence in the strict build: header bytes swept, "
+                 "position x byte sweeps, generated hashes re-parsed.",
+        "note": COMMON_NOTE,
+        "technique": "Lean 4 proof (parser relation + generator invariant through the C01 refinement) + strict-build "
+                     "differential replay",
+    },
 }
